@@ -24,3 +24,12 @@ VARIANTS += [
     M('C05', 'multi-file-entry-drops-sortby', E(CP, "                    check_order=check_order,\n                    sortby=sortby,\n                    condition=condition,\n                    msgs=msgs,\n                    **kwargs,", "                    check_order=check_order,\n                    condition=condition,\n                    msgs=msgs,\n                    **kwargs,"),
       rule='C05-FORWARD', key='check_serialized_dataframes'),
 ]
+
+VARIANTS += [
+    M('C05', 'rounding-map-from-actual-frame-only', E(CP, "            df = df.round(self.precision).reset_index(drop=True)\n            ref_df = ref_df.round(self.precision).reset_index(\n                drop=True\n            )",
+                                                      "            decimals = {\n                c: self.precision for c in df.select_dtypes(include='float')\n            }\n            df = df.round(decimals).reset_index(drop=True)\n            ref_df = ref_df.round(decimals).reset_index(drop=True)"),
+      rule='C05-SYM', key='decimals'),
+    M('C05', 'refactor-rounding-map-from-both-frames', E(CP, "            df = df.round(self.precision).reset_index(drop=True)\n            ref_df = ref_df.round(self.precision).reset_index(\n                drop=True\n            )",
+                                                         "            decimals = {\n                c: self.precision for c in list(df.select_dtypes(include='float')) + list(ref_df.select_dtypes(include='float'))\n            }\n            df = df.round(decimals).reset_index(drop=True)\n            ref_df = ref_df.round(decimals).reset_index(drop=True)"),
+      kind='refactor'),
+]
